@@ -209,6 +209,10 @@ theorem ainv_step {s s' : St} {l : Label} (h : Inv s) (ha : AInv s) (hs : step s
       split at hd <;> simp at hd; subst hd
       rename_i hw
       exact ⟨fun k hk => by simp at hk, fun _ => a2 (by rw [hw]; rfl), fun hc => by simp [hx] at hc⟩
+    | die =>
+      simp only [sStep] at hd
+      split at hd <;> simp at hd; subst hd
+      exact ⟨fun k hk => by simp at hk, fun hp => by simp [SPC.preAbort] at hp, fun hc => by simp [hx] at hc⟩
 
 theorem ainv_exec {s0 s : St} {ls : List Label} (h0 : Inv s0) (a0 : AInv s0) (he : Exec s0 ls s) : AInv s := by
   induction he with
